@@ -70,7 +70,9 @@ func streamOK(r io.Reader) bool {
 	return 0 <= inPos(r) && inPos(r) <= inEnd(r) && inEnd(r) <= 1<<48
 }
 
-func outOK(w io.Writer) bool { return 0 <= outLen(w) && outLen(w) <= 1<<48 }
+func outOK(w io.Writer) bool {
+	return 0 <= outLen(w) && outLen(w) <= 1<<61 && 0 <= outCalls(w) && outCalls(w) <= 1<<61
+}
 
 var _ = ws.StateServerSide
 
@@ -308,3 +310,71 @@ func specExtLen(n int) int {
 //@   ensures  [keep] forall(0, old(outLen(w.dest)), func(k int) bool { return outByte(w.dest, k) == old(outByte(w.dest, k)) })
 //@   assigns bytes(w.raw), stream(w.dest)
 //@   loop 1 invariant [hdr] header.Fin == fin && header.Length == int64(w.n) && !header.Masked && header.Rsv < 8 && err == nil && header.OpCode == w.opCode() && (len(w.extensions) == 0 ==> header.Rsv == 0)
+
+// writerReady: what every public Writer method needs from its caller / leaves behind.
+func writerReady(w *Writer) bool {
+	return invWriter(w) && w.dest != nil && outOK(w.dest) && w.fseq <= 1<<40 && len(w.extensions) == 0
+}
+
+func clientSide(s ws.State) bool { return s&ws.StateClientSide != 0 }
+
+//@ func Writer.FlushFragment
+//@   props C06 C16
+//@   requires [ready] writerReady(w)
+//@   ensures  [noop]  old(w.n) == 0 || old(w.err) != nil ==> outCalls(w.dest) == old(outCalls(w.dest)) && outLen(w.dest) == old(outLen(w.dest)) && result == old(w.err) && w.n == old(w.n) && w.fseq == old(w.fseq) && w.err == old(w.err)
+//@   ensures  [one]   old(w.n) > 0 && old(w.err) == nil ==> outCalls(w.dest) == old(outCalls(w.dest))+1 && w.n == 0 && w.fseq == old(w.fseq)+1 && w.err == result
+//@   ensures  [len]   old(w.n) > 0 && old(w.err) == nil && result == nil ==> outLen(w.dest) == old(outLen(w.dest))+specHdrLen(old(w.n), clientSide(w.state))+old(w.n)
+//@   ensures  [b0]    old(w.n) > 0 && old(w.err) == nil && result == nil ==> outByte(w.dest, old(outLen(w.dest))) == byte(iteInt(old(w.fseq) > 0, 0, int(w.op)))
+//@   ensures  [b1]    old(w.n) > 0 && old(w.err) == nil && result == nil ==> outByte(w.dest, old(outLen(w.dest))+1) == specB1(old(w.n), clientSide(w.state))
+//@   ensures  [payload] old(w.n) > 0 && old(w.err) == nil && result == nil ==> forall(0, old(w.n), func(k int) bool { return outByte(w.dest, old(outLen(w.dest))+specHdrLen(old(w.n), clientSide(w.state))+k) == old(w.buf[k])^iteByte(clientSide(w.state), outByte(w.dest, old(outLen(w.dest))+specHdrLen(old(w.n), true)-4+k%4), 0) })
+//@   ensures  [keep]  forall(0, old(outLen(w.dest)), func(k int) bool { return outByte(w.dest, k) == old(outByte(w.dest, k)) })
+//@   ensures  [same]  w.dirty == old(w.dirty) && w.dest == old(w.dest) && w.op == old(w.op) && w.state == old(w.state) && w.noFlush == old(w.noFlush) && sameSlice(w.raw, old(w.raw)) && sameSlice(w.buf, old(w.buf)) && len(w.extensions) == 0
+//@   ensures  [inv]   invWriter(w)
+//@   assigns w.err, w.n, w.fseq, bytes(w.raw), stream(w.dest)
+
+//@ func Writer.Flush
+//@   props C06 C16 C08
+//@   requires [ready] writerReady(w)
+//@   ensures  [noop]  (!old(w.dirty) && old(w.n) == 0) || old(w.err) != nil ==> outCalls(w.dest) == old(outCalls(w.dest)) && outLen(w.dest) == old(outLen(w.dest)) && result == old(w.err) && w.n == old(w.n) && w.fseq == old(w.fseq) && w.err == old(w.err) && w.dirty == old(w.dirty)
+//@   ensures  [one]   (old(w.dirty) || old(w.n) > 0) && old(w.err) == nil ==> outCalls(w.dest) == old(outCalls(w.dest))+1 && w.n == 0 && w.fseq == 0 && !w.dirty && w.err == result
+//@   ensures  [len]   (old(w.dirty) || old(w.n) > 0) && old(w.err) == nil && result == nil ==> outLen(w.dest) == old(outLen(w.dest))+specHdrLen(old(w.n), clientSide(w.state))+old(w.n)
+//@   ensures  [b0]    (old(w.dirty) || old(w.n) > 0) && old(w.err) == nil && result == nil ==> outByte(w.dest, old(outLen(w.dest))) == 0x80|byte(iteInt(old(w.fseq) > 0, 0, int(w.op)))
+//@   ensures  [b1]    (old(w.dirty) || old(w.n) > 0) && old(w.err) == nil && result == nil ==> outByte(w.dest, old(outLen(w.dest))+1) == specB1(old(w.n), clientSide(w.state))
+//@   ensures  [payload] (old(w.dirty) || old(w.n) > 0) && old(w.err) == nil && result == nil ==> forall(0, old(w.n), func(k int) bool { return outByte(w.dest, old(outLen(w.dest))+specHdrLen(old(w.n), clientSide(w.state))+k) == old(w.buf[k])^iteByte(clientSide(w.state), outByte(w.dest, old(outLen(w.dest))+specHdrLen(old(w.n), true)-4+k%4), 0) })
+//@   ensures  [keep]  forall(0, old(outLen(w.dest)), func(k int) bool { return outByte(w.dest, k) == old(outByte(w.dest, k)) })
+//@   ensures  [same]  w.dest == old(w.dest) && w.op == old(w.op) && w.state == old(w.state) && w.noFlush == old(w.noFlush) && sameSlice(w.raw, old(w.raw)) && sameSlice(w.buf, old(w.buf)) && len(w.extensions) == 0
+//@   ensures  [inv]   invWriter(w)
+//@   assigns w.err, w.n, w.fseq, w.dirty, bytes(w.raw), stream(w.dest)
+
+//@ func ceilPowerOfTwo
+//@   props C06
+//@   requires [dom] 0 <= n && n < 1<<61
+//@   ensures  [gt]  result > n && result <= 2*n+1
+//@   ensures  [pow] result&(result-1) == 0
+//@   assigns nothing
+
+//@ func pbytes.GetLen
+//@   requires [n] 0 <= n && n <= 1<<47
+//@   ensures  [len] len(result) == n && fresh(result)
+//@   assigns nothing
+
+//@ func pbytes.Put
+//@   assigns nothing
+
+//@ func Writer.WriteThrough
+//@   props C06 C16 C17
+//@   requires [ready] writerReady(w) && len(p) <= 1<<47
+//@   cases side: w.state&ws.StateClientSide != 0 | !(w.state&ws.StateClientSide != 0)
+//@   cases len: int64(len(p)) <= 125 && int64(len(p)) <= 65535 | !(int64(len(p)) <= 125) && int64(len(p)) <= 65535 | !(int64(len(p)) <= 125) && !(int64(len(p)) <= 65535)
+//@   ensures  [dead]  old(w.err) != nil ==> n == 0 && err == old(w.err) && outCalls(w.dest) == old(outCalls(w.dest)) && w.fseq == old(w.fseq) && w.dirty == old(w.dirty)
+//@   ensures  [busy]  old(w.err) == nil && w.n != 0 ==> n == 0 && err == ErrNotEmpty && outCalls(w.dest) == old(outCalls(w.dest)) && w.fseq == old(w.fseq) && w.err == nil
+//@   ensures  [sent]  old(w.err) == nil && w.n == 0 ==> w.fseq == old(w.fseq)+1 && w.dirty && w.err == err && (err == nil ==> n == len(p)) && (err != nil ==> n == 0)
+//@   ensures  [len]   old(w.err) == nil && w.n == 0 && err == nil ==> outLen(w.dest) == old(outLen(w.dest))+specHdrLen(len(p), clientSide(w.state))+len(p)
+//@   ensures  [b0]    old(w.err) == nil && w.n == 0 && err == nil ==> outByte(w.dest, old(outLen(w.dest))) == byte(iteInt(old(w.fseq) > 0, 0, int(w.op)))
+//@   ensures  [b1]    old(w.err) == nil && w.n == 0 && err == nil ==> outByte(w.dest, old(outLen(w.dest))+1) == specB1(len(p), clientSide(w.state))
+//@   ensures  [payload] old(w.err) == nil && w.n == 0 && err == nil ==> forall(0, len(p), func(k int) bool { return outByte(w.dest, old(outLen(w.dest))+specHdrLen(len(p), clientSide(w.state))+k) == p[k]^iteByte(clientSide(w.state), outByte(w.dest, old(outLen(w.dest))+specHdrLen(len(p), true)-4+k%4), 0) })
+//@   ensures  [keep]  forall(0, old(outLen(w.dest)), func(k int) bool { return outByte(w.dest, k) == old(outByte(w.dest, k)) })
+//@   ensures  [same]  w.n == old(w.n) && w.dest == old(w.dest) && w.op == old(w.op) && w.state == old(w.state) && w.noFlush == old(w.noFlush) && sameSlice(w.raw, old(w.raw)) && sameSlice(w.buf, old(w.buf)) && len(w.extensions) == 0
+//@   ensures  [inv]   invWriter(w)
+//@   assigns w.err, w.dirty, w.fseq, stream(w.dest)
+//@   loop 1 invariant [hdr] !frame.Header.Fin && frame.Header.Length == int64(len(p)) && !frame.Header.Masked && frame.Header.Rsv == 0 && err == nil && frame.Header.OpCode == w.opCode() && isNilSlice(frame.Payload)
